@@ -417,6 +417,12 @@ def arm_mentions(fn, blocks):
             # arguments such as the *source* type of a conversion are not the dispatch target
             if f.get('local'):
                 txt = f.get('impl_self') or f.get('path') or ''
+                # a type-generic private helper (`self.convert_and_wrap::<TaikoPerformance>(..)`) dispatches to whatever its type arguments name
+                g = fn.facts.fn(f.get('path') or '')
+                if g is not None and not g.impl_trait and any(str(x).endswith(':type') and not str(x).startswith('impl ') for x in (g.j.get('generics') or [])):
+                    targs_txt = ' '.join(f.get('targs') or [])
+                    if mode_mentions(targs_txt):
+                        txt = targs_txt
             elif f.get('name') == 'into' and f.get('trait') == 'std::convert::Into' and len(f.get('dargs') or []) > 1:
                 txt = f['dargs'][1]
             else:
